@@ -69,4 +69,77 @@ theorem adjoint_of_same_idx {R} [CommSemiring R] (fw bw : Moves) (gy x raw : Nat
   intro t ht
   rw [hs t (mem_range.mp ht), hd t (mem_range.mp ht)]
 
+/-- a backward loop that writes every element at most once, started from zero,
+leaves `gy (s t)` at `d t` -/
+theorem scatterAdd_of_once {R} [AddCommMonoid R] {m : Moves} (hon : m.WritesOnce) (gy : Nat → R) {t : Nat}
+    (ht : t < m.count) : scatterAdd m.didx m.sidx gy m.count (fun _ => 0) (m.didx t) = gy (m.sidx t) := by
+  rw [scatterAdd_apply, zero_add, sum_eq_single t]
+  · simp
+  · intro t' ht' hne
+    have : ¬ m.didx t' = m.didx t := fun e => hne (hon t' t (mem_range.mp ht') ht e)
+    simp [this]
+  · intro h; exact absurd (mem_range.mpr ht) h
+
+/-- reindexing a pairing by a pair of mutually inverse maps on the index range -/
+theorem sum_reindex {R} [CommSemiring R] (n : Nat) (φ ψ : Nat → Nat) (f g : Nat → R)
+    (hφ : ∀ i, i < n → φ i < n) (hψ : ∀ i, i < n → ψ i < n) (hinv : ∀ i, i < n → ψ (φ i) = i)
+    (hinv' : ∀ i, i < n → φ (ψ i) = i) (hfg : ∀ i, i < n → f i = g (φ i)) :
+    ∑ i ∈ range n, f i = ∑ i ∈ range n, g i := by
+  apply sum_nbij' φ ψ
+  · intro i hi; exact mem_range.mpr (hφ i (mem_range.mp hi))
+  · intro i hi; exact mem_range.mpr (hψ i (mem_range.mp hi))
+  · intro i hi; exact hinv i (mem_range.mp hi)
+  · intro i hi; exact hinv' i (mem_range.mp hi)
+  · intro i hi; exact hfg i (mem_range.mp hi)
+
+/-- closed form of the max_bw / min_bw loop -/
+theorem selectAdd_apply {R} [AddCommMonoid R] [DecidableEq R] (r : Reduce) (x y gy gx : Nat → R) (n o : Nat) :
+    selectAdd r x y gy n gx o = gx o + ∑ i ∈ range n,
+      match firstEq x (r.off i) (y i) r.n with
+      | some j => if o = r.off i j then gy i else 0
+      | none => 0 := by
+  induction n with
+  | zero => simp [selectAdd]
+  | succ n ih =>
+    rw [sum_range_succ, selectAdd]
+    cases h : firstEq x (r.off n) (y n) r.n with
+    | none => simp only [ih, add_zero]
+    | some j =>
+      simp only
+      by_cases e : o = r.off n j
+      · simp only [e, if_true]; rw [← e, ih, add_assoc]
+      · simp only [e, if_false, add_zero]; exact ih
+
+/-- pairing the result of max_bw / min_bw (started from zero) with `dx`:
+each output element contributes `gy i * dx (first position equal to y i)` -/
+theorem select_adjoint {R} [CommSemiring R] [DecidableEq R] (r : Reduce) (x y gy dx : Nat → R) (m : Nat)
+    (hb : ∀ i j, i < r.rep → j < r.n → r.off i j < m) :
+    ∑ o ∈ range m, selectAdd r x y gy r.rep (fun _ => 0) o * dx o =
+      ∑ i ∈ range r.rep, match firstEq x (r.off i) (y i) r.n with
+        | some j => gy i * dx (r.off i j)
+        | none => 0 := by
+  simp only [selectAdd_apply, zero_add, sum_mul]
+  rw [sum_comm]
+  apply sum_congr rfl
+  intro i hi
+  cases h : firstEq x (r.off i) (y i) r.n with
+  | none => simp
+  | some j =>
+    simp only
+    have hj : j < r.n := by
+      unfold firstEq at h
+      have := List.mem_of_find?_eq_some h
+      simpa using this
+    rw [sum_eq_single (r.off i j)]
+    · simp
+    · intro o _ ho; simp [ho]
+    · intro hn; exact absurd (mem_range.mpr (hb i j (mem_range.mp hi) hj)) hn
+
+/-- `firstEq` finds the first position `k` where the value is attained -/
+theorem firstEq_eq_some {R} [DecidableEq R] (x : Nat → R) (off : Nat → Nat) (v : R) (n k : Nat) (hk : k < n)
+    (he : x (off k) = v) (hfirst : ∀ j, j < k → x (off j) ≠ v) : firstEq x off v n = some k := by
+  unfold firstEq
+  rw [List.find?_range_eq_some]
+  exact ⟨by simpa using he, by simpa using hk, fun j hj => by simpa using hfirst j hj⟩
+
 end Primitiv.Move
